@@ -191,6 +191,36 @@ def literals(v1: Lit, v2: Lit) -> bool:
     return _fires_ok(e, count < t, []) and _fires_ok(p, count > t, occ)
 
 
+ODD_LITERALS = [1j, 2j, b"a", b"zzz", 5, "a", 1.5, True]
+
+
+def literal_kinds(q0: bool, q1: bool, q2: bool, a0: bool, a1: bool, a2: bool, b0: bool, b1: bool, b2: bool, t0: bool,
+                  u_prefix: bool) -> bool:
+    """
+    Literal kinds beyond int / float / bool / str: complex and bytes constants in the program and as the queried literal
+    (menu 1j, 2j, b'a', b'zzz', 5, 'a', 1.5, True for the query and for two program constants): an occurrence is a
+    constant of the same type and equal value - however the program spells it (`u_prefix`: string constants written
+    with the legal u'' prefix).
+
+    pre: True
+    post: _
+    """
+    if tick():
+        return True
+    q, v1, v2, t = ODD_LITERALS[bits(q0, q1, q2)], ODD_LITERALS[bits(a0, a1, a2)], ODD_LITERALS[bits(b0, b1, b2)], (1 if t0 else 0)
+    u_prefix = True if u_prefix else False
+    from crosshair.tracers import NoTracing
+    with NoTracing():
+        spell = (lambda v: ("u" + repr(v)) if (u_prefix and isinstance(v, str)) else repr(v))
+        code = "a = %s\nb = [%s]\n" % (spell(v1), spell(v2))
+        r = Report()
+        contextualize_report(code, report=r)
+        occ = [ln for v, ln in ((v1, 1), (v2, 2)) if type(v) is type(q) and v == q]
+        e = S.ensure_literal(q, at_least=t, report=r)
+        p = S.prevent_literal(q, at_most=t, report=r)
+        return _fires_ok(e, len(occ) < t, []) and _fires_ok(p, len(occ) > t, occ)
+
+
 TYPES = [int, float, str, bool]
 
 
@@ -224,7 +254,9 @@ def literal_types(v1: Lit, v2: Lit, k0: bool, k1: bool, t0: bool, t1: bool) -> b
 
 STMTS = ["x = 1", "for i in y:\n    pass", "while x:\n    x = 0", "if x:\n    pass\nelse:\n    x = 2", "def g():\n    return 1",
          "import math", "from os import path", "x += 1"]
-NODE_NAMES = ["For", "While", "If", "FunctionDef", "Return", "Assign", "AugAssign", "Import", "ImportFrom", "Pass"]
+NODE_NAMES = ["For", "While", "If", "FunctionDef", "Return", "Assign", "AugAssign", "Import", "ImportFrom", "Pass",
+              # kinds whose ast objects CPython shares between ALL parsed trees (operators, contexts)
+              "LtE", "Store", "Load", "Compare", "Name", "Add"]
 MODULES = ["math", "os", "random"]
 
 
@@ -279,6 +311,8 @@ OTHER_CODE = "while q:\n    q = q - 1\nr = 1 <= 2\n"
 
 
 BAD_CODE = "y = ("
+# node kinds queried by default_root: statements and kinds whose ast objects are shared between all parsed trees
+DR_NAMES = ["For", "If", "Assign", "Pass", "LtE", "Store", "Compare", "Add"]
 
 
 def default_root(s0: bool, s1: bool, s2: bool, k0: bool, k1: bool, k2: bool, k3: bool, step0: bool, step1: bool) -> bool:
@@ -287,7 +321,7 @@ def default_root(s0: bool, s1: bool, s2: bool, k0: bool, k1: bool, k2: bool, k3:
     student_code= (parse_program / find_matches on a reference solution), then ensure_ast / prevent_ast / find_operation
     WITHOUT root= : they still describe the submission, not the other code. Partition "bad,first_check,verified": the
     other code does not parse; the submission was already looked at before the helper ran; the Source tool parsed the
-    submission first (CAIT then takes over its tree).
+    submission first and then, explicitly, the other code (verify(other_code)).
 
     pre: True
     post: _
@@ -296,23 +330,24 @@ def default_root(s0: bool, s1: bool, s2: bool, k0: bool, k1: bool, k2: bool, k3:
         return True
     from pedal.cait.cait_api import parse_program, find_matches
     bad, first_check, verified = [x == "1" for x in (PART or "0,1,0").split(",")]
-    k = bits(k0, k1, k2, k3)
-    if k >= len(NODE_NAMES):
+    k = bits(k0, k1, k2)
+    if k3:
         return True
     code = STMTS[bits(s0, s1, s2)] + "\nt = a <= b\n"
     r = Report()
     contextualize_report(code, report=r)
-    name = NODE_NAMES[k]
+    name = DR_NAMES[k]
     tree = ast.parse(code)
     count = sum(1 for n in ast.walk(tree) if type(n).__name__ == name)
+    other = BAD_CODE if bad else OTHER_CODE
     if verified:
         from pedal.source import verify
         verify(report=r)
+        verify(other, report=r)          # ... and then looked at the other code as well: the Source tool's tree is now ITS tree
     if first_check:
         first = S.prevent_ast(name, report=r)
         if bool(first) != (count > 0):
             return False
-    other = BAD_CODE if bad else OTHER_CODE
     if step0:
         parse_program(other, report=r)
     if step1:
